@@ -298,5 +298,8 @@ m("C04", "C04-arith-handler-before-conversion", "R04-events:objectArith:converts
 m("C04", "C04-unm-handler-before-conversion", "R04-events:handler[OP_UNM]:converts-before-looking-for-a-handler", ("vm.go", "\t\t\tif str, ok := unaryv.(LString); ok {\n\t\t\t\t// a string that converts to a number is negated as a number; a handler is looked for only otherwise\n\t\t\t\tif num, err := parseNumber(string(str)); err == nil {\n\t\t\t\t\tunaryv = num\n\t\t\t\t}\n\t\t\t}\n", ""))
 
 m("C17", "C17-paren-restamps-function", "R17-lines:parser:taken-over-function-node-keeps-its-line", ("parse/parser.go", "\t\t\tif _, ok := yyDollar[2].expr.(*ast.FunctionExpr); !ok {\n\t\t\t\t// a function keeps the line of its own keyword (linedefined)\n\t\t\t\tyyVAL.expr.SetLine(yyDollar[1].token.Pos.Line)\n\t\t\t}\n", "\t\t\tyyVAL.expr.SetLine(yyDollar[1].token.Pos.Line)\n"))
+
+m("C04", "C04-debug-getmetatable-protected", "R04-events:debugGetMetatable:reads-the-real-metatable", ("debuglib.go", "\tL.Push(L.metatable(L.CheckAny(1), true))\n", "\tL.Push(L.GetMetatable(L.CheckAny(1)))\n"))
+m("C15", "C15-huge-finite", "R15-mathmap:huge:is-positive-infinity", ("mathlib.go", "LNumber(math.Inf(1))", "LNumber(math.MaxFloat64)"))
 if __name__ == "__main__":
     main()
